@@ -24,7 +24,7 @@ ID = 'C08'
 LEVEL = 'model_checking'
 PRELOAD = ['frame.geometry.geometry', 'frame.netlist.netlist', 'frame.die.die', 'frame.allocation.allocation', 'ruamel.yaml', 'mc.common', 'tools.rect.rect', 'tools.rect.rect_io', 'mc.dpll']
 RULE = ("grids nx x ny (nx*ny <= 6 quick / <= 9 thorough) with column/row coordinates from 6 families (origin 0 integer, origin 1, fractional size, "
-        "non-uniform, decimal 0.1 steps, origin 0.5 with size 2.5, unit pitch at x=1234567, grids derived from decimal allocations), k in 1..3: the complete projected model set of the generated CNF vs the brute-force "
+        "non-uniform, decimal 0.1 steps, origin 0.5 with size 2.5, unit pitch at x=1234567, negative origins with and without an inner grid line at exactly 0, grids derived from decimal allocations), k in 1..3: the complete projected model set of the generated CNF vs the brute-force "
         "set of k-box single-trunk orthogons; occupancy vectors over {0, 0.3, 0.7, 1} x every cost bound: the real solve(). "
         "states = models enumerated (each is one admitted shape), transitions = (grid,k) formulas + solve() calls.")
 ASSUMPTIONS = ["the grid is a full rectangular grid of cells (the property's 'rectangular grid of cells')",
@@ -47,6 +47,8 @@ FAMS = {
     'FAR': lambda i: 1234567.0 + i,             # unit pitch far from the origin: lines agree in their first six digits
     'FARDEC': lambda i: 2500000.25 + 0.5 * i,
     'NEG': lambda i: -2.5 + i,                  # 'any origin': a grid lying (partly) at negative coordinates
+    'NEG0': lambda i: -1.0 + i,                 # ... with an inner grid line at exactly 0.0 (a die centred on the origin)
+    'NEG0F': lambda i: -1.5 + 0.75 * i,         # ... the same with fractional pitch (line 0.0 is the third one)
 }
 
 
@@ -291,7 +293,9 @@ def check_io(case, res):
     cells = grid_cells(fam, nx, ny)
     doc = []
     for (x0, y0, x1, y1, _), p in zip(cells, occ):
-        mp = {'Other': 1.0} if p <= 0 else {'M': p} if p >= 1 else {'M': p, 'Other': round(1 - p, 6)}
+        # the selected module is 'M1'; the other occupants have names that contain it ('M10', 'XM1')
+        mp = {'M10': 0.5, 'XM1': 0.5} if p <= 0 else {'M1': p} if p >= 1 else \
+            {'M1': p, 'M10': round((1 - p) / 2, 6), 'XM1': round((1 - p) / 4, 6)}
         doc.append([[(x0 + x1) / 2, (y0 + y1) / 2, x1 - x0, y1 - y0], mp])
     from ruamel.yaml import YAML
     d = tempfile.mkdtemp(prefix='c08.')
@@ -300,7 +304,7 @@ def check_io(case, res):
         with open(path, 'w') as f:
             YAML().dump(doc, f)
         ifile = rio.get_alloc(path)
-        ip, name = rio.select_box('M', ifile)
+        ip, name = rio.select_box('M1', ifile)
     except Exception as e:  # noqa
         res.violation('io-raises', case, dict(fam=fam), 'grid reproduced', f'{type(e).__name__}: {e}')
         return
@@ -343,12 +347,12 @@ def shards(tier):
                 if nx * ny >= 9 and k == 3 and tier == 'quick':
                     continue
                 out.append(dict(kind='modelset', fam=fam, nx=nx, ny=ny, k=k))
-    for fam in ('ORG0', 'HALFORG', 'ORG1', 'FRAC', 'FAR', 'NEG'):
+    for fam in ('ORG0', 'HALFORG', 'ORG1', 'FRAC', 'FAR', 'NEG', 'NEG0'):
         for first in OCC:
             for second in OCC:
                 out.append(dict(kind='solve22', fam=fam, first=first, second=second))
         out.append(dict(kind='solve31', fam=fam))
-        if fam != 'NEG':        # allocation documents are restricted to the positive quadrant (library-wide precondition)
+        if not fam.startswith('NEG'):        # allocation documents are restricted to the positive quadrant (library-wide precondition)
             out.append(dict(kind='io', fam=fam))
     if tier == 'thorough':
         for fam in ('ORG0', 'HALFORG'):
